@@ -10,10 +10,16 @@ import (
 )
 
 func (r *Run) call(endpoint string, f func() *Resp) *Resp {
+	r.W.Store.TxTrace = nil
 	res := f()
+	if len(r.Fault.specs) > 0 && r.Fault.specs[0].Kind == "trace-only" {
+		r.logf("TRACE %s", strings.ReplaceAll(strings.Join(res.Trace, " "), ":ERR", ""))
+	}
 	if res.Crashed {
 		r.stat("crashed-request")
 		r.afterCrash()
+	} else {
+		r.checkTxTrace(endpoint)
 	}
 	r.monitorResp(endpoint, res)
 	return res
@@ -159,6 +165,9 @@ func (r *Run) afterAuthorize(st Step, cs *ClientSpec, res *Resp, q url.Values, c
 		r.logf("authz %s rt=%q -> CRASHED", cs.ID, rtype)
 		return nil
 	}
+	if r.Fault.mustRefuse() && (at != "" || id != "") {
+		r.violate("C18", "tokens-despite-storage-failure", "authorize", "authz %s rt=%q: a storage call failed (%s) but the response carries tokens", cs.ID, rtype, r.Fault.desc())
+	}
 	if code == "" && at == "" && id == "" {
 		r.logf("authz %s rt=%q scope=%q -> %d %s", cs.ID, rtype, q.Get("scope"), res.Status, res.ErrName)
 		r.Shape = append(r.Shape, "authz✗")
@@ -285,7 +294,7 @@ func (r *Run) opRedeem(st Step) {
 	case "long":
 		ver = strings.Repeat("a", 129)
 	case "illegal":
-		ver = r.verifier(6000+r.Idx)[:49] + "!"
+		ver = r.verifier(6000 + r.Idx)[:49] + "!"
 	case "othermethod":
 		if g.Method == "S256" {
 			ver = g.Challenge // what a "plain" comparison would accept
@@ -406,6 +415,12 @@ func (r *Run) judgeRedeem(st Step, code *Cred, cs *ClientSpec, res *Resp, sentRe
 		return
 	}
 	if code.Unspec || g.Unspec {
+		if tokens && code.State != Live {
+			r.violate("C01", "code-redeemed-twice", "", "%s: the code had already been redeemed and yielded tokens again", desc)
+			if r.Fault.fired || g.Faulted {
+				r.violate("C18", "invalidated-credential-honoured-again", "code", "%s: the code had been redeemed before a storage failure and yielded tokens again", desc)
+			}
+		}
 		if tokens {
 			r.onRedeemSuccess(st, code, cs, res)
 		} else {
@@ -499,7 +514,9 @@ func (r *Run) judgeRedeem(st Step, code *Cred, cs *ClientSpec, res *Resp, sentRe
 	}
 	if faulted {
 		if tokens {
-			r.violate("C18", "tokens-despite-storage-failure", "authorization_code", "%s: a storage call failed (%s) but the response carries tokens", desc, r.Fault.spec.Kind)
+			if r.Fault.mustRefuse() {
+				r.violate("C18", "tokens-despite-storage-failure", "authorization_code", "%s: a storage call failed (%s) but the response carries tokens", desc, r.Fault.desc())
+			}
 			r.onRedeemSuccess(st, code, cs, res)
 		} else {
 			r.faultedRequest(g, code, res)
@@ -512,7 +529,9 @@ func (r *Run) judgeRedeem(st Step, code *Cred, cs *ClientSpec, res *Resp, sentRe
 	}
 	// refused although no statement gives a reason
 	if exp == Must && pkceSpecified && r.mustSucceedOK(g) {
-		if g.FailedPKCE > 0 {
+		if code.Extra["retry_must"] != "" {
+			r.violate("C18", "retry-after-clean-failure-refused", "authorization_code", "%s: refused (%s) although the earlier storage failure left every record as it was: the credential must still be usable by its legitimate holder", desc, res.ErrName)
+		} else if g.FailedPKCE > 0 {
 			// an earlier attempt failed PKCE: whether the correct verifier still works afterwards is not pinned down (C03 is an only-if statement)
 			r.probe("pkce-lockout-observed")
 		} else if g.FailedRedeems > 0 {
@@ -567,15 +586,6 @@ func (r *Run) onRedeemSuccess(st Step, code *Cred, cs *ClientSpec, res *Resp) {
 	r.logf("   issued %s", credNames(at, rt, id))
 	r.checkTokenResponse("authorization_code", g, cs, res, at, rt, id, code)
 	r.probeGrant(g, "right after issuance")
-}
-
-// faultedRequest: a storage failure / crash hit the request. Non-tx store: fail-closed, state of the touched
-// credentials is unspecified except that nothing invalidated may come back. Tx store: see checks in c18.go.
-func (r *Run) faultedRequest(g *Grant, c *Cred, res *Resp) {
-	r.stat("faulted-request")
-	if g != nil {
-		g.Unspec = true
-	}
 }
 
 // ---------------------------------------------------------------------------
@@ -657,6 +667,12 @@ func (r *Run) judgeRefresh(st Step, rt *Cred, cs *ClientSpec, res *Resp, mutated
 		return
 	}
 	if rt.Unspec || g.Unspec {
+		if tokens && rt.State != Live {
+			r.violate("C04", "dead-refresh-token-honoured", "", "%s: the token was %s (%v) and yielded tokens again", desc, rt.State, rt.Why)
+			if r.Fault.fired || g.Faulted {
+				r.violate("C18", "invalidated-credential-honoured-again", "rt", "%s: the refresh token had been invalidated before a storage failure and yielded tokens again", desc)
+			}
+		}
 		if tokens {
 			r.onRefreshSuccess(st, rt, cs, res)
 		} else {
@@ -732,7 +748,9 @@ func (r *Run) judgeRefresh(st Step, rt *Cred, cs *ClientSpec, res *Resp, mutated
 	}
 	if faulted {
 		if tokens {
-			r.violate("C18", "tokens-despite-storage-failure", "refresh_token", "%s: a storage call failed (%s) but the response carries tokens", desc, r.Fault.spec.Kind)
+			if r.Fault.mustRefuse() {
+				r.violate("C18", "tokens-despite-storage-failure", "refresh_token", "%s: a storage call failed (%s) but the response carries tokens", desc, r.Fault.desc())
+			}
 			r.onRefreshSuccess(st, rt, cs, res)
 		} else {
 			r.faultedRequest(g, rt, res)
@@ -744,7 +762,12 @@ func (r *Run) judgeRefresh(st Step, rt *Cred, cs *ClientSpec, res *Resp, mutated
 		return
 	}
 	if exp == Must && r.refreshScopeOK(g) && r.mustSucceedOK(g) {
-		r.sanity("%s refused with %s although every known reason for refusal is absent", desc, res.ErrName)
+		if rt.Extra["retry_must"] != "" {
+			r.violate("C18", "retry-after-clean-failure-refused", "refresh_token", "%s: refused (%s) although the earlier storage failure left every record as it was", desc, res.ErrName)
+		} else {
+			r.sanity("%s refused with %s (%v) although every known reason for refusal is absent", desc, res.ErrName, res.Err)
+		}
+		g.Unspec = true
 	}
 }
 
@@ -837,8 +860,8 @@ func (r *Run) opPassword(st Step) {
 	if !tokens {
 		return
 	}
-	if r.Fault.fired {
-		r.violate("C18", "tokens-despite-storage-failure", "password", "%s: a storage call failed (%s) but the response carries tokens", desc, r.Fault.spec.Kind)
+	if r.Fault.mustRefuse() {
+		r.violate("C18", "tokens-despite-storage-failure", "password", "%s: a storage call failed (%s) but the response carries tokens", desc, r.Fault.desc())
 	}
 	g := r.L.NewGrant(&Grant{Client: cs.ID, Origin: "password", Scopes: splitNonEmpty(st.p("scope")), Audience: splitNonEmpty(st.p("aud")), ReqAt: r.now()})
 	g.OpenID = false
@@ -895,8 +918,8 @@ func (r *Run) opClientCredentials(st Step) {
 	if !tokens {
 		return
 	}
-	if r.Fault.fired {
-		r.violate("C18", "tokens-despite-storage-failure", "client_credentials", "%s: a storage call failed (%s) but the response carries tokens", desc, r.Fault.spec.Kind)
+	if r.Fault.mustRefuse() {
+		r.violate("C18", "tokens-despite-storage-failure", "client_credentials", "%s: a storage call failed (%s) but the response carries tokens", desc, r.Fault.desc())
 	}
 	g := r.L.NewGrant(&Grant{Client: cs.ID, Origin: "client_credentials", Subject: cs.ID, Scopes: splitNonEmpty(st.p("scope")), Audience: splitNonEmpty(st.p("aud")), ReqAt: r.now()})
 	at, rt, id := r.recordTokenResponse(res, g, 0, "client_credentials", cs)
@@ -1125,6 +1148,7 @@ func (r *Run) opRevoke(st Step) {
 		return
 	}
 	if r.Fault.fired {
+		r.faultedRequest(g, c, res)
 		g.Unspec = true
 		return
 	}
